@@ -202,8 +202,40 @@ macro_rules! agg_custom {
     ($krate:ident, true) => {};
 }
 
+macro_rules! rr_wrappers {
+    // crates that export a `rerandomized` wrapper module
+    ($krate:ident, true) => {
+        fn w_rr_sign(
+            pkg: &SigningPackage<Self>,
+            nonces: &SigningNonces<Self>,
+            kp: &KeyPackage<Self>,
+            seed: &[u8],
+        ) -> Result<SignatureShare<Self>, Error<Self>> {
+            $krate::rerandomized::sign_with_randomizer_seed(pkg, nonces, kp, seed)
+        }
+        fn w_rr_aggregate(
+            pkg: &SigningPackage<Self>,
+            shares: &BTreeMap<Id<Self>, SignatureShare<Self>>,
+            pkp: &PublicKeyPackage<Self>,
+            params: &RandomizedParams<Self>,
+        ) -> Result<Signature<Self>, Error<Self>> {
+            $krate::rerandomized::aggregate(pkg, shares, pkp, params)
+        }
+        fn w_rr_aggregate_custom(
+            pkg: &SigningPackage<Self>,
+            shares: &BTreeMap<Id<Self>, SignatureShare<Self>>,
+            pkp: &PublicKeyPackage<Self>,
+            cd: CheaterDetection,
+            params: &RandomizedParams<Self>,
+        ) -> Result<Signature<Self>, Error<Self>> {
+            $krate::rerandomized::aggregate_custom(pkg, shares, pkp, cd, params)
+        }
+    };
+    ($krate:ident, false) => {};
+}
+
 macro_rules! impl_suite {
-    ($ty:ty, $krate:ident, $name:expr, $ext:expr, $verify:path, $tr:tt) => {
+    ($ty:ty, $krate:ident, $name:expr, $ext:expr, $verify:path, $tr:tt, $rr:tt) => {
         impl Suite for $ty {
             const NAME: &'static str = $name;
             const TAPROOT: bool = $tr;
@@ -258,6 +290,7 @@ macro_rules! impl_suite {
                 $krate::aggregate(pkg, shares, pkp)
             }
             agg_custom!($krate, $tr);
+            rr_wrappers!($krate, $rr);
             fn w_part1(
                 id: Id<Self>,
                 n: u16,
@@ -355,14 +388,15 @@ pub type P256 = frost_p256::P256Sha256;
 pub type Secp = frost_secp256k1::Secp256K1Sha256;
 pub type SecpTr = frost_secp256k1_tr::Secp256K1Sha256TR;
 
-impl_suite!(Ed25519, frost_ed25519, "ed25519", "ed25519-dalek verify_strict", ext_ed25519, false);
+impl_suite!(Ed25519, frost_ed25519, "ed25519", "ed25519-dalek verify_strict", ext_ed25519, false, false);
 impl_suite!(
     Ristretto,
     frost_ristretto255,
     "ristretto255",
     "from-scratch Schnorr on curve25519-dalek ristretto + sha2",
     ext_ristretto,
-    false
+    false,
+    true
 );
 impl_suite!(
     Ed448,
@@ -370,6 +404,7 @@ impl_suite!(
     "ed448",
     "from-scratch RFC 8032 Ed448 verify on ed448-goldilocks + sha3",
     ext_ed448,
+    false,
     false
 );
 impl_suite!(
@@ -378,6 +413,7 @@ impl_suite!(
     "p256",
     "from-scratch Schnorr on p256 + own expand_message_xmd",
     ext_p256,
+    false,
     false
 );
 impl_suite!(
@@ -386,6 +422,7 @@ impl_suite!(
     "secp256k1",
     "from-scratch Schnorr on k256 + own expand_message_xmd",
     ext_secp,
+    false,
     false
 );
 impl_suite!(
@@ -394,7 +431,8 @@ impl_suite!(
     "secp256k1-tr",
     "libsecp256k1 verify_schnorr (BIP-340)",
     ext_secp_tr,
-    true
+    true,
+    false
 );
 
 pub const REAL_SUITES: [&str; 6] = [
